@@ -30,7 +30,7 @@ Proof.
 Qed.
 
 (* an object that comes out of the decoder has pairwise different member names (compared AFTER unquoting) *)
-Lemma pval_obj_nodup n cs m r : pval n cs = Some (VObj m, r) -> nodup_keys m = true.
+Lemma pval_obj_nodup rc n cs m r : pval rc n cs = Some (VObj m, r) -> nodup_keys m = true.
 Proof.
   destruct n as [|n']; [discriminate|]. cbn [pval].
   repeat match goal with
@@ -40,7 +40,7 @@ Qed.
 
 Lemma parse_json_obj_nodup bs m : parse_json bs = Some (VObj m) -> NoDup (map fst m).
 Proof.
-  unfold parse_json. destruct (pval (S (S (List.length bs))) bs) as [[v r]|] eqn:E; [|discriminate].
+  unfold parse_json. destruct (pval true (S (S (List.length bs))) bs) as [[v r]|] eqn:E; [|discriminate].
   destruct (skip_ws r); [|discriminate]. intro H. inversion H; subst.
   apply nodup_keys_sound. eapply pval_obj_nodup. exact E.
 Qed.
@@ -175,4 +175,22 @@ Proof.
   apply hdr_json_sound in E3 as (m & P & ND & HV).
   exists hseg, pseg, sseg, hb, m, p, sg. repeat split; try assumption.
   subst h. exact E6.
+Qed.
+
+(* claims decoding of jwt.Parse (jwt.PayloadToMap), decided by the model on the payload bytes *)
+Lemma claims_obj_sound bs : claims_obj bs = true ->
+  (exists m r, pval false (S (S (List.length bs))) bs = Some (VObj m, r) /\ NoDup (map fst m)) \/
+  (exists r, pval false (S (S (List.length bs))) bs = Some (VNull, r)).
+Proof.
+  unfold claims_obj. destruct (pval false (S (S (List.length bs))) bs) as [[[| | | | |m] r]|] eqn:E; try discriminate; intros _.
+  - right. exists r. reflexivity.
+  - left. exists m, r. split; [reflexivity|]. apply nodup_keys_sound. eapply pval_obj_nodup. exact E.
+Qed.
+
+Lemma jwt_accept_claims ph rs sm c det tok h payload :
+  parse_jwt ph rs sm claims_obj Fixed c false det tok = Accept h payload -> claims_obj payload = true.
+Proof.
+  unfold parse_jwt. destruct (parse_jws ph rs sm Fixed c det tok) as [h' p'| |]; try discriminate.
+  destruct (negb (typ_ok h' && cty_ok h')); [discriminate|]. cbn [orb].
+  destruct (claims_obj p') eqn:E; [|discriminate]. intro H. inversion H; subst. exact E.
 Qed.
